@@ -20,7 +20,7 @@ const packThreshold = 512 << 10 // documented: files under this size are not pac
 type fileSpec struct {
 	Name    string `json:"name"`
 	Size    int    `json:"size"`
-	Content string `json:"content"` // random | periodic | zeros | as:<name> (same bytes as another file of the case) | ext:<name> (that file's bytes followed by Size fresh random bytes)
+	Content string `json:"content"` // random | periodic | zeros | as:<name> (same bytes as another file of the case) | ext:<name> (that file's bytes followed by Size fresh random bytes) | parts:<shape> (hand-written file schema with a part that uses only a prefix of its blob, see partsFile)
 	Period  int    `json:"period,omitempty"`
 	Order   string `json:"order,omitempty"` // overrides the case's upload order for this file
 }
@@ -45,6 +45,9 @@ type caseSpec struct {
 	Class  string     `json:"class"`
 	Files  []fileSpec `json:"files"`
 	MaxZip int        `json:"max_zip,omitempty"` // 0 = default 16 MiB
+	// MaxZipPerMille: MaxZip is set to this share of the first file's size (known only when
+	// the file has been generated), so that the file needs two or three zips.
+	MaxZipPerMille int `json:"max_zip_per_mille,omitempty"`
 	// Order: schema-last | schema-first | schema-middle (the file schema blob is always (re-)sent
 	// last, when every chunk is there), or one of the orders in which the last upload of the file
 	// schema blob does NOT see every chunk: schema-only-early (schema first, never re-sent),
@@ -80,7 +83,7 @@ type caseSpec struct {
 type chunkPos struct {
 	Ref  blob.Ref
 	Off  int64
-	Size int64
+	Size int64 // bytes of the file this part covers: the blob's size, or less for a short part
 }
 
 type fileInfo struct {
@@ -92,6 +95,7 @@ type fileInfo struct {
 	Chunks   []chunkPos
 	Distinct int // distinct chunk refs
 	Schemas  int // schema blobs (file + bytes)
+	Short    int // parts that cover only a prefix of the blob they name (hand-written schemas)
 }
 
 // upload is one client operation of the history: the upload of one blob or, when Remove is
@@ -116,6 +120,11 @@ type world struct {
 	DupStart int
 	// Late: universe indices of the blobs that the last schema upload of their file does not see
 	Late []int
+	// TwoSizesFullLast: some file names one blob in two parts of different sizes, and the last
+	// of them covers the whole blob.  (The packer keeps one size per blob ref, the last one
+	// named; the short part then passes its size check and the whole blob is copied in its
+	// place.)  Findings in such a world carry the signature prefix two-part-sizes/.
+	TwoSizesFullLast bool
 }
 
 func genContent(rng *rand.Rand, fs fileSpec, prev map[string][]byte) []byte {
@@ -141,6 +150,82 @@ func genContent(rng *rand.Rand, fs fileSpec, prev map[string][]byte) []byte {
 		rng.Read(b)
 		return b
 	}
+}
+
+// partsFile writes a file schema blob by hand (schema.Builder.PopulateParts): a flat list of
+// parts over a handful of data blobs in which one blob B is larger than a part that names it.
+// Such a part {blobRef: B, size: n} with n < len(B), offset 0, covers the first n bytes of B;
+// perkeep's file reader serves it (layout re-reads the file through it).  fs.Size is the
+// approximate file size.  Shapes (c* are ordinary parts covering their whole blob):
+//
+//	short-first            B:n c0 c1 c2 c3
+//	short-mid              c0 c1 B:n c2 c3
+//	short-last             c0 c1 c2 c3 B:n
+//	short-by-one           c0 B:len-1 c1 c2 c3
+//	two-sizes-short-first  B:n c0 c1 B c2     (one blob named with two part sizes)
+//	two-sizes-full-first   B c0 c1 B:n c2
+//	short-twice            c0 B:n c1 B:n c2
+func partsFile(rng *rand.Rand, fs fileSpec) (content []byte, fileRef blob.Ref, blobs []sto.Blob, err error) {
+	shape := strings.TrimPrefix(fs.Content, "parts:")
+	unit := fs.Size / 5
+	if unit < 4096 {
+		return nil, blob.Ref{}, nil, fmt.Errorf("file too small for %q", fs.Content)
+	}
+	mk := func(n int) sto.Blob {
+		d := make([]byte, n)
+		rng.Read(d)
+		return sto.FromBytes(d)
+	}
+	var c []sto.Blob
+	for i := 0; i < 4; i++ {
+		c = append(c, mk(unit-rng.Intn(unit/8)))
+	}
+	B := mk(unit + unit/2 + rng.Intn(unit/4))
+	n := unit - rng.Intn(unit/4) // bytes of B that the short part uses
+	type part struct {
+		b    sto.Blob
+		size int
+	}
+	full := func(b sto.Blob) part { return part{b, len(b.Data)} }
+	var parts []part
+	switch shape {
+	case "short-first":
+		parts = []part{{B, n}, full(c[0]), full(c[1]), full(c[2]), full(c[3])}
+	case "short-mid":
+		parts = []part{full(c[0]), full(c[1]), {B, n}, full(c[2]), full(c[3])}
+	case "short-last":
+		parts = []part{full(c[0]), full(c[1]), full(c[2]), full(c[3]), {B, n}}
+	case "short-by-one":
+		parts = []part{full(c[0]), {B, len(B.Data) - 1}, full(c[1]), full(c[2]), full(c[3])}
+	case "two-sizes-short-first":
+		parts = []part{{B, n}, full(c[0]), full(c[1]), full(B), full(c[2])}
+	case "two-sizes-full-first":
+		parts = []part{full(B), full(c[0]), full(c[1]), {B, n}, full(c[2])}
+	case "short-twice":
+		parts = []part{full(c[0]), {B, n}, full(c[1]), {B, n}, full(c[2])}
+	default:
+		return nil, blob.Ref{}, nil, fmt.Errorf("unknown parts shape %q", shape)
+	}
+	var bps []schema.BytesPart
+	seen := map[blob.Ref]bool{}
+	for _, p := range parts {
+		content = append(content, p.b.Data[:p.size]...)
+		bps = append(bps, schema.BytesPart{Size: uint64(p.size), BlobRef: p.b.Ref})
+		if !seen[p.b.Ref] {
+			seen[p.b.Ref] = true
+			blobs = append(blobs, p.b)
+		}
+	}
+	m := schema.NewFileMap(fs.Name)
+	if err := m.PopulateParts(int64(len(content)), bps); err != nil {
+		return nil, blob.Ref{}, nil, err
+	}
+	js, err := m.JSON()
+	if err != nil {
+		return nil, blob.Ref{}, nil, err
+	}
+	fb := sto.FromBytes([]byte(js))
+	return content, fb.Ref, append(blobs, fb), nil
 }
 
 // layout interprets the file schema to list the data chunks in file order.  perkeep's own
@@ -170,10 +255,18 @@ func layout(fi *fileInfo) error {
 			return fmt.Errorf("unexpected part shape %+v", p)
 		}
 		d, ok := data[p.BlobRef]
-		if !ok || int64(len(d)) != int64(p.Size) {
-			return fmt.Errorf("chunk %v missing or wrong size", p.BlobRef)
+		if !ok || int64(len(d)) < int64(p.Size) {
+			return fmt.Errorf("chunk %v missing or too small", p.BlobRef)
 		}
-		if !bytes.Equal(d, fi.Content[off:off+int64(len(d))]) {
+		if int64(len(d)) > int64(p.Size) {
+			// a part may use only the first bytes of its blob (offset 0)
+			if !strings.HasPrefix(fi.Spec.Content, "parts:") {
+				return fmt.Errorf("chunk %v: part size %d, blob size %d", p.BlobRef, p.Size, len(d))
+			}
+			fi.Short++
+			d = d[:p.Size]
+		}
+		if off+int64(len(d)) > int64(len(fi.Content)) || !bytes.Equal(d, fi.Content[off:off+int64(len(d))]) {
 			return fmt.Errorf("chunk %v at %d does not match the content", p.BlobRef, off)
 		}
 		fi.Chunks = append(fi.Chunks, chunkPos{Ref: p.BlobRef, Off: off, Size: int64(len(d))})
@@ -205,9 +298,17 @@ func buildWorld(cs caseSpec) (*world, error) {
 		return len(w.Universe) - 1
 	}
 	for _, fs := range cs.Files {
-		content := genContent(rng, fs, prev)
+		var content []byte
+		var fileRef blob.Ref
+		var blobs []sto.Blob
+		var err error
+		if strings.HasPrefix(fs.Content, "parts:") {
+			content, fileRef, blobs, err = partsFile(rng, fs)
+		} else {
+			content = genContent(rng, fs, prev)
+			fileRef, blobs, err = sto.FileBlobs(fs.Name, content)
+		}
 		prev[fs.Name] = content
-		fileRef, blobs, err := sto.FileBlobs(fs.Name, content)
 		if err != nil {
 			return nil, fmt.Errorf("writing file %q: %w", fs.Name, err)
 		}
@@ -217,6 +318,21 @@ func buildWorld(cs caseSpec) (*world, error) {
 		}
 		w.Files = append(w.Files, fi)
 		w.IsSchema[fileRef] = true
+		lastSize, differs := map[blob.Ref]int64{}, map[blob.Ref]bool{}
+		for _, ch := range fi.Chunks {
+			if sz, ok := lastSize[ch.Ref]; ok && sz != ch.Size {
+				differs[ch.Ref] = true
+			}
+			lastSize[ch.Ref] = ch.Size
+		}
+		for _, b := range blobs {
+			if differs[b.Ref] && lastSize[b.Ref] == int64(len(b.Data)) {
+				w.TwoSizesFullLast = true
+			}
+		}
+	}
+	if cs.MaxZipPerMille > 0 && w.Spec.MaxZip == 0 {
+		w.Spec.MaxZip = len(w.Files[0].Content) / 1000 * cs.MaxZipPerMille
 	}
 	// loose blobs: small, never part of a file
 	var loose []int
